@@ -322,7 +322,7 @@ def stepCallR (s : State) (t r : Nat) (op : ROp) : Option State :=
         else
           some { s0 with rform := upd s.rform r .poll, rmax := upd s.rmax r 1, rbatch := upd s.rbatch r fu.max,
                          rexec := upd s.rexec r false, rwaker := upd s.rwaker r (.fut fu.id),
-                         wakes := upd s.wakes fu.id 0, rpc := upd s.rpc r .closedLoad }
+                         rpc := upd s.rpc r .closedLoad }
       | none => none
     | .dropFut =>
       match s.rfut r with
